@@ -60,6 +60,16 @@ func (mo *MethodOption) layout(left int) (w int) {
 	return
 }
 
+// setLeft moves the forms and the documentation, which is not one of the
+// children, to the new left.
+func (mo *MethodOption) setLeft(left int) {
+	shift := left - mo.x
+	mo.List.setLeft(left)
+	if mo.doc != nil {
+		mo.doc.setLeft(mo.doc.left() + shift)
+	}
+}
+
 func (mo *MethodOption) reorg(edge int) int {
 	if edge < mo.right() {
 		w := 9
